@@ -20,8 +20,10 @@ parameter vector in scope.  The output is judged by
       every non-empty container left on one line sits on a line that fits
       max_width; expand_all leaves no non-empty container inline.
 
-Measured on this machine (16 workers): quick ~1.33 M evaluations in ~25 s,
-thorough ~33 M evaluations in ~8 min (see the final numbers in evidence/C16.json).
+Cost: ~110-120 us CPU per evaluation (half of it Rich itself). quick = 2.05 M
+evaluations (~225 CPU-s, ~15-20 s wall on 16 idle cores); thorough = 44 M
+evaluations (~5 200 CPU-s, ~6 min wall on 16 idle cores). The development machine
+was shared (load average 40-100), so measured walls were several times longer.
 """
 import ast
 import itertools
@@ -446,16 +448,20 @@ TRUNC_COMBOS = ((1, None), (None, 1), (1, 1), (2, 3))
 TRUNC_WIDTHS = (1, 4, 8, 10, 12, 16, 20, 24, 40, 80)
 
 
-def params_trunc():
+def params_trunc(combos=TRUNC_COMBOS, widths=TRUNC_WIDTHS, extra=True):
     out = []
-    for ml, ms in TRUNC_COMBOS:
-        for w in TRUNC_WIDTHS:
+    for ml, ms in combos:
+        for w in widths:
             out.append((w, 4, False, ml, ms))
-        for ind in (2, 1):
-            for w in (8, 16):
-                out.append((w, ind, False, ml, ms))
-        out.append((80, 4, True, ml, ms))
+        if extra:
+            for ind in (2, 1):
+                for w in (8, 16):
+                    out.append((w, ind, False, ml, ms))
+            out.append((80, 4, True, ml, ms))
     return out
+
+
+ALL_TRUNC_COMBOS = tuple((ml, ms) for ml in ML for ms in MS if (ml, ms) != (None, None))
 
 
 def params_full():
@@ -480,7 +486,10 @@ def param_set(name):
     if name not in _PARAMS:
         _PARAMS[name] = {"base": params_base, "trunc": params_trunc, "full": params_full,
                          "graph": params_graph,
-                         "base+trunc": lambda: params_base() + params_trunc()}[name]()
+                         "base+trunc": lambda: params_base() + params_trunc(),
+                         "base+trunc8": lambda: params_base() + params_trunc(ALL_TRUNC_COMBOS),
+                         "base+trunc2": lambda: params_base() + params_trunc(((1, 1), (2, 3)), (4, 10, 16, 24, 80),
+                                                                             extra=False)}[name]()
     return _PARAMS[name]
 
 
@@ -1215,10 +1224,10 @@ def _strata(tier):
     return [
         ("leaves", stratum_leaves, "full"),
         ("d1<=2", lambda: stratum_d1(2), "full"),
-        ("d2<=2", stratum_d2_quick, "full"),
+        ("d2<=2", stratum_d2_quick, "base+trunc8"),
         ("d1=3", lambda: stratum_d1(3, lo=3), "base+trunc"),
-        ("d2=3", stratum_d2_three, "base+trunc"),
-        ("d3", stratum_d3, "base+trunc"),
+        ("d2=3", stratum_d2_three, "base+trunc2"),
+        ("d3", stratum_d3, "base+trunc2"),
         ("chains4-6", stratum_chains, "base"),
         ("graphs1", lambda: stratum_graphs(1, ("list", "dict", "deque", "defaultdict", "tuple")), "graph"),
         ("graphs2", lambda: stratum_graphs(2, ("list", "dict", "tuple", "deque", "defaultdict")), "graph"),
@@ -1292,20 +1301,24 @@ def describe(tier, seed, res):
                 "dict/defaultdict with 1..2 children from M = 3 leaves + one representative per kind x arity 0/1/2 (31); "
                 "all object graphs (cycles, shared children) with 1 node (5 kinds) or 2 nodes (4 kinds), <=2 items per node "
                 "over {0, ref}. PARAMETERS per tree value: max_width 1..24,40,80,200 x indent 4,2,1 (expand_all off) + "
-                "expand_all x 3 widths x indent; + 6 (max_length,max_string) combinations x 12 widths (+2 indents x 2 "
-                "widths, + expand_all); graphs: 7 widths x 2 indents (+expand_all) x max_length None/1. "
+                "expand_all x 3 widths x indent; + (max_length,max_string) in {(1,None),(None,1),(1,1),(2,3)} x 10 widths "
+                "(+2 indents x 2 widths, + expand_all) = 150 vectors; graphs: 7 widths x 2 indents (+expand_all) x "
+                "max_length None/1 = 30 vectors. "
                 "Plus slice seed%%%d of the thorough-only value space (3 children, depth 3, chains to depth 6) at the "
                 "no-truncation parameters. Non-trivial = output contains a non-empty container (inline or expanded); "
                 "distinct = outcome signatures (root kind, oracle branch, line-count class, inline/expanded counts, "
                 "repr branch, expand_all, marker kinds)." % ROT_K)
     else:
-        rule = ("VALUES: quick core (leaves, depth 1 <=2 children over 14 leaves, depth 2 <=2 children over M=31) with the FULL "
-                "product max_width 1..24,40,80,200 x indent 4,2,1 x expand_all x max_length None,1,2 x max_string None,1,3; "
-                "depth 1 with 3 children over all leaves; depth 2 with 3 children over a 17-element menu; depth 3 (outer kind "
-                "x <=3 children, one child a depth-2 value from a reduced menu, the others from a 5-element menu; pairs of deep "
-                "children) -- these with all widths x indents (+expand_all) and 6 truncation combinations x 12 widths; "
-                "single-child chains of depth 4..6 over 6 kinds (no-truncation parameters); all object graphs with <=2 nodes "
-                "(5 kinds) and 3 nodes (list/dict/tuple), <=2 items per node. Non-trivial / distinct as in quick.")
+        rule = ("VALUES and PARAMETERS: leaves and depth 1 (<=2 children over 14 leaves) with the FULL product max_width "
+                "1..24,40,80,200 x indent 4,2,1 x expand_all x max_length None,1,2 x max_string None,1,3 (1458 vectors); "
+                "depth 2 (<=2 children over M=31) with all widths x indents (+expand_all at 3 widths) and all 8 truncation "
+                "combinations x 10 widths (+2 indents x 2 widths, +expand_all) = 210 vectors; depth 1 with 3 children over all "
+                "leaves (150 vectors as in quick); depth 2 with 3 children over a 19-element menu and depth 3 (outer kind x <=3 "
+                "children, one child a depth-2 value from a 213-element menu, the others from a 5-element menu; pairs of deep "
+                "children) with all widths x indents (+expand_all) and (max_length,max_string) in {(1,1),(2,3)} x 5 widths = 100 "
+                "vectors; single-child chains of depth 4..6 over 6 kinds (90 no-truncation vectors); all object graphs with <=2 "
+                "nodes (5 kinds) and 3 nodes (list/dict/tuple), <=2 items per node (30 vectors). Non-trivial / distinct as in quick: "
+                "non-trivial = output contains a non-empty container (inline or expanded); distinct = outcome signatures.")
     return {
         "rule": rule,
         "assumptions": [
